@@ -1,0 +1,26 @@
+//go:build verif
+
+package time
+
+// Machine-checked contracts for this package (comment-only; excluded from normal builds).
+// Checked by /verif/bin/vf: every clause becomes a verification condition over the SSA of the real function.
+
+//@ property C18
+//@ pure func validTS(t) = t != nil && 0 - 62135596800 <= t.Seconds && t.Seconds <= 253402300799 && 0 <= t.Nanos && t.Nanos <= 999999999
+//@ pure func before(a, b) = a.Seconds < b.Seconds || (a.Seconds == b.Seconds && a.Nanos < b.Nanos)
+//@ pure func sameInstant(a, b) = a.Seconds == b.Seconds && a.Nanos == b.Nanos
+//@
+//@ func CompareAscending(t1, t2) (r)
+//@   requires validTS(t1) && validTS(t2)
+//@   ensures [range] r == 0 - 1 || r == 0 || r == 1
+//@   ensures [before] (r == 0 - 1) == before(t1, t2)
+//@   ensures [after] (r == 1) == before(t2, t1)
+//@   ensures [equal] (r == 0) == sameInstant(t1, t2)
+//@   modifies nothing
+//@   replay CompareAscending(t1.Seconds, t1.Nanos, t2.Seconds, t2.Nanos)
+//@
+//@ lemma beforeIsStrictTotalOrder(a *timestamppb.Timestamp, b *timestamppb.Timestamp, c *timestamppb.Timestamp)
+//@   ensures [irreflexive] !before(a, a)
+//@   ensures [asymmetric] before(a, b) ==> !before(b, a)
+//@   ensures [transitive] before(a, b) && before(b, c) ==> before(a, c)
+//@   ensures [total] before(a, b) || before(b, a) || sameInstant(a, b)
